@@ -4,7 +4,7 @@
 A case is {"p": "tw"|"ig"|"tg", "u": <url>} (the parse/extract/is/convert functions of one
 platform on one string), {"p": "val", "s": <string>} (the validators on one string) or
 {"p": "tw", "deep": n, "tail": t} (the url 'twitter.com/#' + '!#'*n + '!' + t, kept symbolic so
-that replays stay small).  "oracle_only": the input leaves the model alphabet (DESIGN.md §4:
+that replays stay small; the input class of the fixed RecursionError).  "oracle_only": the input leaves the model alphabet (DESIGN.md §4:
 NFKC-unstable or case-unstable code points); it is judged by the oracle, not compared.
 """
 import itertools
@@ -16,20 +16,17 @@ import lib
 PART = "small"
 _T, _I, _G, _S = "Ural.Props.C19.Twitter.", "Ural.Props.C19.Instagram.", "Ural.Props.C19.Telegram.", "Ural.Props.C19.Small."
 THEOREMS = [
-    # --- twitter: totality (component level, step level, whole function), termination measure, well-formed records
+    # --- twitter: totality (component level, loop body, whole function incl. termination of the loop), well-formed records
     _T + "listRoute_total",
     _T + "twitterRoute_total",
-    _T + "twitterStep_total",
-    _T + "runSteps_only_recursion_error",
+    _T + "loopBody_total",
+    _T + "runSteps_only_non_termination",
     _T + "runSteps_total",
     _T + "runSteps_limit_irrelevant",
-    _T + "parse_twitter_url_only_recursion_error",
     _T + "reroute_count",
-    _T + "parse_twitter_url_total_partial",
-    _T + "fullParseTwitterTotal_false",
-    _T + "parse_twitter_url_limit_irrelevant",
-    _T + "extract_screen_name_only_recursion_error",
-    _T + "extract_screen_name_total_partial",
+    _T + "parse_twitter_url_total",
+    _T + "parse_twitter_url_budget_irrelevant",
+    _T + "extract_screen_name_total",
     _T + "normalize_screen_name_ne_nil",
     _T + "twitterRoute_nonempty",
     _T + "twitter_record_wellformed",
@@ -48,8 +45,7 @@ THEOREMS = [
     _G + "extract_channel_name_total",
     _G + "convert_telegram_only_documented_error",
     _G + "is_telegram_message_id_iff",
-    _G + "telegram_record_wellformed_partial",
-    _G + "fullTelegramWellFormed_false",
+    _G + "telegram_record_wellformed",
     # --- shared lemmas the statements rest on
     "Ural.C19Small.searchB_bos",
     "Ural.C19Small.searchB_plus_iff",
@@ -71,8 +67,8 @@ RULE = (
     "extract_screen_name_from_twitter_url; ig: is_instagram_url, parse_instagram_url, extract_username_from_instagram_url; tg: "
     "is_telegram_url, parse_telegram_url, extract_channel_name_from_telegram_url, convert_telegram_url_to_public), or one string "
     "given to the validators (is_instagram_post_shortcode, is_instagram_username, is_telegram_message_id, normalize_screen_name). "
-    "Order: corpus (inputs of the fixed defects FX-C19-7f9b1a7/fd4e778/d948b00/574a9dc/3e875d1, of the host-pattern fixes, the "
-    "statement's own examples, the two known findings), then per platform every path of 0-3 segments over the route vocabulary "
+    "Order: corpus (inputs of the fixed defects FX-C19-7f9b1a7/fd4e778/d948b00/574a9dc/3e875d1/4182eae/f20322b, of the host-pattern "
+    "fixes, the statement's own examples), then per platform every path of 0-3 segments over the route vocabulary "
     "+ id-like / handle-like / empty / too-long / non-ASCII segments on the main host with and without trailing slash, 4 and 5 "
     "segments over the core vocabulary, hosts (www/mobile/country/case variants, look-alikes, userinfo, port, trailing dot, none) x "
     "scheme forms x short paths, 5 queries x 17 fragments (hashbang routing incl. nested and empty) x short paths, twitter paths "
@@ -101,8 +97,8 @@ TRUSTED = [
     "safe_urlsplit, pathsplit, ensure_protocol (Model/Builders.lean, Model/Protocol.lean): modelled, not verified; _check_bracketed_host is "
     "approximated and _checknetloc (NFKC) is not modelled; the routing theorems (twitterRoute/instagramRoute/telegramRoute) are stated over "
     "ALL segment lists and fragments, so they do not depend on these models",
-    "Python's recursion limit is the parameter `limit` of the twitter model (nested self-calls still available); the harness gives the "
-    "model 900 and generates hashbang nestings <= 40 or = 1200 only",
+    "the `while True` loop of parse_twitter_url is a fuel-driven loop in the model with the budget #'#' of the url; exhausting it is the value "
+    "nonTermination, proved unreachable (parse_twitter_url_total) and the budget proved immaterial (parse_twitter_url_budget_irrelevant)",
 ]
 ASSUMPTIONS = [
     "inputs are str (a SplitResult argument, which safe_urlsplit also accepts, is outside the statement 'for every string')",
@@ -118,20 +114,12 @@ ASSUMPTIONS = [
     "allow_relative_urls / fix_common_mistakes do not exist in these three modules",
 ]
 UNPROVED = (
-    "parse_twitter_url / extract_screen_name_from_twitter_url: totality is proved for every string with at most `limit` '#' characters "
-    "(parse_twitter_url_total_partial; every re-entry consumes one '#'), and for EVERY string the only reachable exception is RecursionError "
-    "(parse_twitter_url_only_recursion_error); the full statement is proved false in the model (fullParseTwitterTotal_false) and fails on the "
-    "implementation: 'twitter.com/#' + '!#'*1200 + '!bob' raises RecursionError (KF-C19-S1, patch notes/fixes/c19-small-twitter-hashbang-loop.diff). "
-    "Telegram: 'no empty field' is proved except for a message read from /s//<id> (telegram_record_wellformed_partial; "
-    "fullTelegramWellFormed_false; KF-C19-S2 't.me/s//123', patch notes/fixes/c19-small-telegram-empty-name.diff). Round trip: no record "
-    "type of these modules builds a url, the clause has no object here. The host patterns (which hosts are twitter/instagram/telegram) are "
-    "not the subject of a theorem in this part (C18), only of the correspondence."
+    "Nothing of the clauses that apply: totality (incl. termination of the twitter hashbang loop), validators, convert_* and well-formed "
+    "records are proved for every string. Round trip: no record type of these modules builds a url, the clause has no object here. The host "
+    "patterns (which hosts are twitter/instagram/telegram) are not the subject of a theorem in this part (C18), only of the correspondence."
 )
 
-# number of nested self-calls the model of parse_twitter_url is given (see Model/Twitter.lean):
-# below what CPython's default recursion limit (1000 frames) leaves in a worker process; the
-# generators produce hashbang nestings <= 40 or >= 1200 only
-TW_LIMIT = 900
+# hashbang nesting of the input of the fixed RecursionError (FX-C19-4182eae): more than CPython's default stack allows
 DEEP = 1200
 
 _OPS = {
@@ -255,9 +243,10 @@ def cases(rng, tier):
         yield {"p": p, "u": u}
     for p, u in CORPUS_ORACLE_ONLY:
         yield {"p": p, "u": u, "oracle_only": True}
-    yield {"p": "tw", "deep": DEEP, "tail": "bob"}  # KF-C19-S1 witness
+    yield {"p": "tw", "deep": DEEP, "tail": "bob"}  # FX-C19-4182eae (RecursionError before the loop)
     yield {"p": "tw", "deep": 40, "tail": "bob/status/1"}
-    yield {"p": "tg", "u": "t.me/s//123"}  # KF-C19-S2 witness
+    yield {"p": "tg", "u": "t.me/s//123"}  # FX-C19-f20322b (empty channel name)
+    yield {"p": "tg", "u": "https://t.me/s//1/"}
     for s in VALUES:
         yield {"p": "val", "s": s}
     for p in ("tw", "ig", "tg"):
@@ -334,10 +323,7 @@ def ops(case):
     u = _url(case)
     out = []
     for f in _OPS[case["p"]]:
-        o = {"f": f, "url": u}
-        if f in ("tw_parse", "tw_extract"):
-            o["limit"] = TW_LIMIT
-        out.append(o)
+        out.append({"f": f, "url": u})
     out.append({"f": "c19s_hostname", "url": u})
     return out
 
@@ -488,30 +474,6 @@ def oracle(case):
         elif not isinstance(r, str):
             return "convert_telegram_url_to_public(%r) returned %r" % (show, r)
     return None
-
-
-def _hashbang_depth(u):
-    return u.count("!#") + u.count("#!")
-
-
-def kf_twitter_hashbang_recursion(case, failure):
-    """KF-C19-S1: parse_twitter_url re-enters itself once per nested '#!' of the fragment; several hundred nestings
-    exhaust the interpreter stack (RecursionError)"""
-    if not isinstance(case, dict) or case.get("p") != "tw" or "RecursionError" not in str(failure):
-        return False
-    return _hashbang_depth(_url(case)) >= 300
-
-
-def kf_telegram_empty_channel_name(case, failure):
-    """KF-C19-S2: t.me/s//<digits> -> TelegramMessage(name='', …): the middle segment of /s/<name>/<id> may be empty"""
-    if not isinstance(case, dict) or case.get("p") != "tg" or not str(failure).startswith("empty field"):
-        return False
-    tw, ig, tg = _mods()
-    try:
-        r = tg.parse_telegram_url(_url(case))
-    except Exception:  # noqa
-        return False
-    return type(r).__name__ == "TelegramMessage" and r.name == "" and r.id != ""
 
 
 # --------------------------------------------------------------------------------------
